@@ -9,6 +9,9 @@ for l in open('/verif/properties.jsonl'):
     if p['id'] == pid:
         break
 wt = "/tmp/seed-%s%s" % (pid, n)
+import subprocess
+avoid = subprocess.run([sys.executable, "/verif/tools/seed_avoid.py", pid], capture_output=True, text=True).stdout.strip()
+avoid_txt = ("\n\nOther engineers have ALREADY produced changes at the following sites for this property; do NOT reuse these functions or the same mechanism — find different code sites and different mechanisms (look at less obvious places the property depends on: caches, helpers, error paths, restart/initialisation code, boundary arithmetic, shared buffers, goroutine hand-offs):\n" + avoid) if avoid and n not in ("a", "") else ""
 print(f"""You are working on NethermindEth/juno, a Go Starknet full node (Merkle-Patricia state trie, block/state storage on Pebble, sync, P2P, Tendermint consensus, JSON-RPC). A scratch git worktree of the repository has been created for you at {wt} (a pinned commit; it builds offline). Work ONLY inside {wt} and {wt}-out; never read or touch /repo or /verif. There is no network.
 
 The following semantic property of juno is supposed to hold:
@@ -18,7 +21,7 @@ STATEMENT: {p['statement']}
 QUANTIFIED OVER: {p['quantifier']['text']}
 RELEVANT FILES: {', '.join(p['anchors']['files'])}
 
-YOUR TASK: write a realistic change to juno's (non-test) source that BREAKS this property while the repository still compiles and its existing tests still pass, plus a demonstration (a Go test file or small Go program) that fails WITH the change and passes WITHOUT it. Think of the kind of regression a plausible refactor, optimisation or "simplification" could introduce. The change must need something SPECIFIC to manifest — a particular interleaving, a crash or fault at a particular point, a multi-step sequence of operations, an unusual input, or two cooperating sites that each look fine alone — NOT something ordinary use or the existing tests would expose at once. Keep it small (a few lines, one or two sites). Produce TWO different changes (different mechanisms / code sites) if you can, each independent of the other and each applying cleanly to a pristine checkout.
+YOUR TASK: write a realistic change to juno's (non-test) source that BREAKS this property while the repository still compiles and its existing tests still pass, plus a demonstration (a Go test file or small Go program) that fails WITH the change and passes WITHOUT it. Think of the kind of regression a plausible refactor, optimisation or "simplification" could introduce. The change must need something SPECIFIC to manifest — a particular interleaving, a crash or fault at a particular point, a multi-step sequence of operations, an unusual input, or two cooperating sites that each look fine alone — NOT something ordinary use or the existing tests would expose at once. Keep it small (a few lines, one or two sites).{avoid_txt}\n\n Produce TWO different changes (different mechanisms / code sites) if you can, each independent of the other and each applying cleanly to a pristine checkout.
 
 Build/test environment: use `export GOFLAGS=-mod=mod GOPROXY=off` and nothing else (do NOT set GOTOOLCHAIN or GOSUMDB — they break the toolchain here). `go build ./...` must pass. Packages that import the Rust VM (rpc/*, node, consensus/driver, mempool, builder, genesis, sync tests, l1 tests, ...) cannot LINK tests in this sandbox (missing Rust static libraries) — that is expected; run `go test -count=1` for the packages you touched and the packages that depend on them and do link (e.g. core/..., db/..., blockchain/..., consensus/tendermint, consensus/votecounter, consensus/walstore, consensus/propeller/..., migration/..., pruner, jsonrpc, utils/...). All tests that passed before your change must still pass with it (compare against a run on the pristine tree if unsure; the whole suite `go test -count=1 ./...` takes a few minutes on 16 shared cores — run at least the relevant packages). Your demonstration may be an external-package test or program inside the worktree (e.g. {wt}/verifdemo/..._test.go, package path under github.com/NethermindEth/juno/...) so that it compiles against the modified tree; if the demonstration needs a package that cannot link here, choose another way to demonstrate.
 
